@@ -33,6 +33,19 @@ pub fn did_key(tcx: TyCtxt<'_>, did: DefId) -> String {
     format!("{}{}", tcx.crate_name(did.krate), tcx.def_path(did).to_string_no_crate_verbose())
 }
 
+fn short_path(f: String) -> String {
+    if let Some(i) = f.find("/registry/src/") {
+        let rest = &f[i + 14..];
+        if let Some(j) = rest.find('/') {
+            return format!("~{}", &rest[j..]);
+        }
+    }
+    if let Some(i) = f.find("/rustlib/src/rust/") {
+        return format!("~rust/{}", &f[i + 18..]);
+    }
+    f
+}
+
 fn hex(bytes: &[u8]) -> String {
     let mut s = String::with_capacity(bytes.len() * 2);
     for b in bytes {
@@ -45,7 +58,7 @@ impl<'a, 'tcx> Cx<'a, 'tcx> {
     fn span(&self, sp: Span) -> J {
         let sm = self.tcx.sess.source_map();
         let loc = sm.lookup_char_pos(sp.lo());
-        let f = format!("{}", loc.file.name.prefer_local_unconditionally());
+        let f = short_path(format!("{}", loc.file.name.prefer_local_unconditionally()));
         let exp = if sp.from_expansion() { "!" } else { "" };
         if f == self.cur_file {
             J::Str(format!("{}{}", loc.line, exp))
@@ -527,7 +540,7 @@ impl<'a, 'tcx> Cx<'a, 'tcx> {
         let tcx = self.tcx;
         let sm = tcx.sess.source_map();
         let loc = sm.lookup_char_pos(body.span.lo());
-        self.cur_file = format!("{}", loc.file.name.prefer_local_unconditionally());
+        self.cur_file = short_path(format!("{}", loc.file.name.prefer_local_unconditionally()));
         let mut locals = vec![];
         for d in body.local_decls.iter() {
             locals.push(self.ty(d.ty));
@@ -551,6 +564,9 @@ impl<'a, 'tcx> Cx<'a, 'tcx> {
                     }
                     StatementKind::SetDiscriminant { place, variant_index } => {
                         stmts.push(obj! {"k": J::s("setdiscr"), "pl": self.place(place), "variant": J::i(variant_index.as_usize())});
+                    }
+                    StatementKind::StorageDead(l) => {
+                        stmts.push(obj! {"k": J::s("dead"), "l": J::i(l.as_usize())});
                     }
                     StatementKind::Intrinsic(i) => {
                         stmts.push(obj! {"k": J::s("intrinsic"), "dbg": J::Str(format!("{:?}", i))});
